@@ -585,6 +585,9 @@ def check_c07(run: Run) -> None:
 
 def _cast_of(spec, ci):
     c = spec['ops'][ci].get('cast_dtype')
+    for op in spec['ops']:      # later `channel.cast_dtype = ...` assignments (the last one counts)
+        if op.get('op') == 'setattr' and op.get('target') == ci and op.get('field') == 'cast_dtype':
+            c = op['value']
     if c is None:
         return None
     return np.dtype(c['$dtype']) if isinstance(c, dict) else np.dtype(c)
